@@ -34,3 +34,24 @@ impl<Tz> vstd::std_specs::cmp::PartialOrdSpecImpl for DateTime<Tz> {
         if self@ < o@ { Some(core::cmp::Ordering::Less) } else if self@ == o@ { Some(core::cmp::Ordering::Equal) } else { Some(core::cmp::Ordering::Greater) }
     }
 }
+
+// ===== chrono::TimeDelta as an integer number of milliseconds (A-TIME) =====
+#[verifier::external_body]
+pub struct TimeDelta { _p: () }
+impl View for TimeDelta { type V = int; uninterp spec fn view(&self) -> int; }
+impl Clone for TimeDelta { #[verifier::external_body] fn clone(&self) -> (r: Self) ensures r@ == self@ { unimplemented!() } }
+impl Copy for TimeDelta {}
+pub uninterp spec fn ms_per_instant_unit() -> int;   // DateTime views are in an arbitrary fixed unit; durations are differences in that unit
+impl<Tz> DateTime<Tz> {
+    #[verifier::external_body]
+    pub fn signed_duration_since(self, rhs: DateTime<Tz>) -> (r: TimeDelta) ensures r@ == self@ - rhs@ { unimplemented!() }
+}
+impl TimeDelta {
+    // i64 range of the millisecond count is a stated precondition (chrono's TimeDelta range is smaller than i64 ms)
+    #[verifier::external_body]
+    pub fn num_milliseconds(&self) -> (r: i64) requires i64::MIN <= self@ <= i64::MAX ensures r == self@ { unimplemented!() }
+    #[verifier::external_body]
+    pub fn seconds(s: i64) -> (r: TimeDelta) ensures r@ == s * 1000 { unimplemented!() }
+    #[verifier::external_body]
+    pub fn max(self, o: TimeDelta) -> (r: TimeDelta) ensures r@ == (if self@ >= o@ { self@ } else { o@ }) { unimplemented!() }
+}
